@@ -105,3 +105,10 @@ def s_split(ctx, inputs, impl_lines=None):
         ctx.stream('S-SPLIT', inputs=1, lines=1)
         if io.split() != mo.split():
             ctx.mismatch('S-SPLIT', s, mo[:300], io[:300])
+
+
+# --- canonical S-expression of a real token tree (same form as lean/SqlModel/Sexp.lean) -------
+def sexp(tok):
+    if tok.is_group:
+        return '( %s%s )' % (type(tok).__name__, ''.join(' ' + sexp(c) for c in tok.tokens))
+    return '[ %s%s ]' % (ttname(tok.ttype), (' ' + hexs(tok.value)) if tok.value else '')
